@@ -259,5 +259,27 @@ def NoPanic (procs : List TagProc) (fields : List ScannedField) : Prop :=
 def Property.erase (p : Property) : FInfo × Bytes × Bytes × Bytes × Tag.Args :=
   (p.field.info, p.nodeType, p.tag, p.tagVal, p.args)
 
+/-! ### which properties a component post-processor is handed (ResolveAfterInstantiation)
+
+    container/factory/post_processor_registration_delegate.go:213-231.  The properties built above are stored in the
+    component's Meta; when the component is created every InstantiationAware processor of the chain (the built-in tag
+    processors, user tag processors, any other user processor) is called with `meta.GetAllProperties()` and picks the
+    properties of its own tag. -/
+
+/-- what ONE processor's PostProcessProperties returns for the list it is handed (`none` = nil).  User code: any function. -/
+abbrev PropsRet := List Property → Option (List Property)
+
+/-- the data flow of the property list through the loop of ResolveAfterInstantiation:
+    `_, err := ipb.PostProcessProperties(meta.GetAllProperties(), meta.Raw, name)` — the list is collected afresh for every
+    processor, the list a processor returns is dropped.  Result: what each processor is handed, in chain order. -/
+def handedLoop (all : List Property) : List PropsRet → List (List Property)
+  | [] => []
+  | ret :: rest =>
+    let _returned := ret all       -- delegate:221  `_, err := …`: dropped (the `//meta.SetProperties(properties...)` below it is a comment)
+    all :: handedLoop all rest     -- delegate:221  the next processor's argument is `meta.GetAllProperties()` again
+
+/-- the filter every tag processor applies to the list it is handed (`if p.Tag != tag { continue }`) -/
+def ofTag (tag : Bytes) (handed : List Property) : List Property := handed.filter (fun q => q.tag = tag)
+
 end Scan
 end Ioc
